@@ -232,7 +232,8 @@ func newFinishedHash(version uint16, cipherSuite *cipherSuite) finishedHash {
 		// give it the same no-op hashes as newFinishedHashGM
 		return finishedHash{sm3.New(), sm3.New(), new(nilMD5Hash), new(nilMD5Hash), buffer, version, prf}
 	} else {
-		prf, hash := prfAndHashForVersion(version, cipherSuite)
+		var hash crypto.Hash
+		prf, hash = prfAndHashForVersion(version, cipherSuite)
 		if hash != 0 {
 			return finishedHash{hash.New(), hash.New(), nil, nil, buffer, version, prf}
 		}
